@@ -158,6 +158,28 @@ func c15case(fail func(string, ...any), tr *transcript, k *gen.Kind, vals []ref.
 				k.T.Name, len(vals), len(junk), err, len(s2.got), len(junk), len(want.B), firstDiff(s2.got, append(append([]byte(nil), junk...), want.B...)))
 		}
 	}
+	// Two columns written through one writer before a single flush (two columns of a block).
+	{
+		s3 := &sink{failAt: -1}
+		wr3 := proto.NewWriter(s3, new(proto.Buffer))
+		other := vals
+		if len(vals) > 1 {
+			other = vals[1:]
+		}
+		ow := &ref.Enc{NoMap: true}
+		ref.EncodeColumn(ow, k.T, other)
+		err = safely(func() error {
+			fill(k, vals, false).Column().WriteColumn(wr3)
+			fill(k, other, true).Column().WriteColumn(wr3)
+			_, e := wr3.Flush()
+			return e
+		})
+		tr.line("%s|write-two|%s|%s", id, errClass(err), sha(s3.got))
+		if err != nil || !bytes.Equal(s3.got, append(append([]byte(nil), want.B...), ow.B...)) {
+			fail("%s: two columns (%d and %d rows) written through one writer and flushed once: err=%v, first difference from the two encodings at %d",
+				k.T.Name, len(vals), len(other), err, firstDiff(s3.got, append(append([]byte(nil), want.B...), ow.B...)))
+		}
+	}
 	// DecodeColumn from a reader that has already served other reads (its scratch buffer is
 	// not empty), also for zero rows.
 	{
@@ -361,7 +383,7 @@ func TestC15Differential(t *testing.T) {
 		arb := rapid.SliceOfN(rapid.Byte(), 0, 96).Draw(rt, "arbitrary")
 		c15case(func(f string, a ...any) { rt.Fatalf(f, a...) }, tr, k, vals, junk, arb, "random")
 		st.Case(stats.Hash("c15", k.Key(), encodeRefColumn(k.T, vals), junk, arb), true, func() any {
-			return map[string]any{"kind": "dual-codec-case", "type": k.T.Name, "rows": rows, "junk_prefix": len(junk), "arbitrary_bytes": len(arb), "ops": "enc-empty, enc-junk, write, write-junk, dec-used-reader, dec-fresh, dec-reset, dec-arbitrary, dec-short"}
+			return map[string]any{"kind": "dual-codec-case", "type": k.T.Name, "rows": rows, "junk_prefix": len(junk), "arbitrary_bytes": len(arb), "ops": "enc-empty, enc-junk, write, write-junk, write-two, dec-used-reader, dec-rows-k-of-n, dec-fresh, dec-reset, dec-arbitrary, dec-short"}
 		})
 		st.Label("codec:" + k.Scalar)
 	})
